@@ -26,7 +26,8 @@ import (
 
 const rule = "cases = (setup history, transaction program of n write operations, prefix length k<=n, ending in {commit, abort, returned error, panic x 5 value kinds}, managed or unmanaged); " +
 	"every prefix of every program is executed with every ending; distinct by (pool, setup, program, k, ending); non-trivial when at least one write of the prefix succeeded; " +
-	"concurrent half: single-snapshot reads of a key set stamped per committed transaction; Allow headers while transactions flip a path between disjoint method sets; requests while a transaction moves a route between two methods (never 404, never a mixed Allow)"
+	"six kinds of (setup, program): random, partial pools with directed programs, programs about method roots; endings also include the misuse of another, finished transaction; " +
+	"concurrent half: one-shot writes queued behind a committing transaction (no lost update); single-snapshot reads of a key set stamped per committed transaction; Allow headers while transactions flip a path between disjoint method sets; requests while a transaction moves a route between two methods (never 404, never a mixed Allow)"
 
 type caseFile struct {
 	hist.Case
